@@ -20,6 +20,10 @@
    (all permutations up to 4 keys, identity/reverse/samples beyond) is a separate package, loaded in every process for both
    platforms; environmentWithName (expanded and raw) and environmentForNode must be byte-identical to those of the document
    as written (key = the mapping whose order mattered).
+5. scoping family (spec/UserVarsScope.tla): one stage, three components that define / inherit `prefix` (component > stage > global)
+   and chain through it (label = "%(prefix)s-x"); TLC checks Scoping, NoLeak, OrderFree over every visiting order; every emitted case
+   is loaded NON-primitively (replicate() -> FlowIRConcrete.instance(), in memory; every k-th also from disk with instance-file
+   generation) in every process: resolved variables and command lines must be the spec's and equal across hash seeds.
 """
 import copy
 import json
